@@ -96,7 +96,7 @@ PROPS = {
         "explanation": "Theorems: get/insert/set/remove/pop/count/setType_refines (the array model refines List operations for EVERY legal threshold, every value size >= 1, every position; in-range requests never fail; root ID and type stable), route_linear_eq_binary. Tie: every operation of every history replayed on the model; observations, net SlabStorage effects, dumps of every stored slab and periodic full-tree dumps must be identical; thresholds and constants compared exhaustively. Oracle: shadow slice.",
     },
     "C05": {
-        "streams": ["array", "settings", "map", "mapcollide"], "driver": {"array": "array", "settings": "settings", "map": "map", "mapcollide": "map"}, "level": "proof",
+        "streams": ["array", "settings", "map", "mapcollide", "batch"], "driver": {"array": "array", "settings": "settings", "map": "map", "mapcollide": "map", "batch": "batch"}, "scale": {"batch": 0.34}, "level": "proof",
         "trusted_base": LEAN_TB, "assumptions": ARRAY_ASSUME + [
             "MAP PART: the map invariant (AtreeProofs/MapInv.lean) is defined and the map model is tied by correspondence, but its preservation theorems are C02's obligations; this check's Lean obligations are the array theorems",
             "size bands are proved for the Nat model; uint32/uint16 truncation cannot occur because every slab size stays <= 1.5*32768 + one element < 65536 (band theorems)"],
